@@ -97,7 +97,8 @@ Proof.
       | In _ (_ :: _) => destruct H as [<-|H]
       | In _ [] => contradiction
       end; try reflexivity); try contradiction;
-      unfold invoke_shutdown_handlers; try (destruct (st_registered _)); reflexivity.
+      unfold invoke_or_block, invoke_shutdown_handlers, set_main; cbn;
+      repeat (match goal with |- context [if ?c then _ else _] => destruct c end); reflexivity.
   - unfold writer_steps in H. repeat (match type of H with
       | In _ (if ?c then _ else _) => destruct c
       | In _ (_ :: _) => destruct H as [<-|H]
@@ -216,10 +217,10 @@ Proof.
 Qed.
 (* and with the dead thread tolerated but the poisoned lock not recovered, the poisoned state still panics *)
 Theorem poison_needs_recovery : forall script, In script all_scripts -> spec_exit_code script = 0 ->
-  inev (mkVariant false true true true false true false) (exits_with 101) depth_bound (initial_dead true script).
+  inev (mkVariant false true true true false true false false) (exits_with 101) depth_bound (initial_dead true script).
 Proof.
   intros script Hin E. apply all_paths_to_sound.
-  assert (C : forallb (all_paths_to (mkVariant false true true true false true false) (exits_with 101) depth_bound)
+  assert (C : forallb (all_paths_to (mkVariant false true true true false true false false) (exits_with 101) depth_bound)
                       (filter (fun s => Nat.eqb (st_expect s) 0) (map (initial_dead true) all_scripts)) = true) by (vm_compute; reflexivity).
   rewrite forallb_forall in C. apply C. apply filter_In. split; [apply in_map; assumption | cbn; rewrite E; reflexivity].
 Qed.
